@@ -51,7 +51,7 @@ CLAIMED += [
      "technique": "Coq proof (monotonicity of parsers + exact consumption => prefix rejection) + exhaustive cut-position correspondence"},
     {"id": "C08",
      "text": "Decoding is independent of transport segmentation: for every chunking, short-read oracle and bufio state, io.ReadFull/UVarInt/StrRaw and every reader program (compression on or off) through bufio+conn equal the same on the concatenated bytes (value, error, consumed); the receive loop with read deadlines depends only on bytes and gap positions; k timeouts before a packet are neutral.",
-     "note": COMMON_NOTE + "Hand-written model of net.Conn/bufio/io.ReadFull/compress.Reader/proto.Reader/packet/receive loop; decoders covered as reader programs (realizers proved for all primitives and message layouts; column/block decoders via the generic theorem). partial: the whole-loop gap theorem is proved for one boundary with any continuation, not for gaps before every packet at once; real deadlines are observed.",
+     "note": COMMON_NOTE + "Hand-written model of net.Conn/bufio/io.ReadFull/compress.Reader/proto.Reader/packet/receive loop; decoders covered as reader programs: realizers proved for all primitives, every message layout and every column decoder (DecodeState+DecodeColumn of any type tree, theorem column_decode_chunk_independent); block-level loops via the generic theorem. partial: the whole-loop gap theorem is proved for one boundary with any continuation, not for gaps before every packet at once; real deadlines are observed.",
      "technique": "Coq simulation proofs (layered reader <= gapped stream <= flat stream; free-monad reader programs) + differential segmentation oracle on the real client (all 2^(n-1) splits of short streams, two-piece at every offset, random, byte-by-byte, real deadlines)"},
     {"id": "C11",
      "text": "For every history of Acquire / Release (repeated) / Do (ok, exception, cut, cancelled) / Ping / Pool.Do / Pool.Ping / health-check steps / time / goroutine completions / Close, with any number of handles: puddle never panics; a resource has at most one holder; total <= MaxConns; a connection released closed or past its lifetime is destroyed and never held or idle again; a repeated Release changes nothing; a health check destroys exactly the expired idle connections; after Close, release of all handles and completion of puddle's goroutines every connection is closed.",
